@@ -184,9 +184,9 @@ def bounds(tier):
     b[0][1].sort(key=lambda c: (c["started"], c["members"][0][0], c["fl"]))      # neighbours share a pack
     if tier != "quick":
         b.append(("wait_any_for 2 members, called at 0.5", cases_for(2, ROLES, (0.5,), ("wait_any_for",))))
-        b.append(("wait_any_for 3 members (roles exec, io-read, comm-get, mess-get)",
-                  cases_for(3, ["exec", "io-read", "comm-get", "mess-get"], (0,), ("wait_any_for",))))
         b.append(("wait_any_for twice, 2 members", cases_for(2, ROLES, (0,), ("wait_any_for2",))))
+        b.append(("wait_any_for 3 members (roles exec, comm-get, mess-get)",
+                  cases_for(3, ["exec", "comm-get", "mess-get"], (0,), ("wait_any_for",))))
         b.append(("wait_any_for 3 members (all 7 roles)", cases_for(3, ROLES, (0,), ("wait_any_for",))))
     return b
 
@@ -206,7 +206,7 @@ def run(ctx):
         if ctx.deadline.left() < 20 and done_bounds:
             exhaustive = False
             break
-        if rate and len(cases) > 1500 and len(cases) / rate * 1.3 > ctx.deadline.left() - 20:      # would not finish
+        if rate and len(cases) > 1500 and len(cases) * len(cases[0]["members"]) / rate * 2.0 > ctx.deadline.left() - 20:      # would not finish
             exhaustive = False
             break
         t_b = __import__("time").time()
@@ -231,7 +231,7 @@ def run(ctx):
         common.log("C12 %s: %d cases, %d failing, t=%.0fs" % (name, len(cases), bad, __import__("time").time() - ctx.t0))
         done_bounds.append(name)
         if len(cases) >= 300:
-            rate = len(cases) / max(0.5, __import__("time").time() - t_b)
+            rate = len(cases) * len(cases[0]["members"]) / max(0.5, __import__("time").time() - t_b)      # members per second
         if len(samples) < 4:
             samples.append({"case": cases[len(cases) // 2], "program": build_prog(cases[len(cases) // 2]),
                             "outcome": results[len(cases) // 2]["outcome"]})
